@@ -28,6 +28,13 @@ JudgeSem(ev) ==
       \* L2: the exact output of the algorithm model (Normalize.tla, proved table-preserving by MC_Normalize)
       /\ (Panicked(ev.normalized) \/ ev.normalized.pol = Norm(P)
           \/ Report("INFO", "drift_l2_normalize", ev, <<ev.normalized.pol, Norm(P)>>))
+      /\ (ev.min_keys = MinKeysAlg(P) \/ Report("INFO", "drift_l2_minimum_n_keys", ev, <<ev.min_keys, MinKeysAlg(P)>>))
+      /\ \A q \in 1..Len(ev.at_age) :
+           Panicked(ev.at_age[q]) \/ ev.at_age[q].pol = AtAgeAlg(P, ev.at_age[q].v)
+           \/ Report("INFO", "drift_l2_at_age", ev, <<ev.at_age[q].v, AtAgeAlg(P, ev.at_age[q].v)>>)
+      /\ \A q \in 1..Len(ev.at_lock) :
+           Panicked(ev.at_lock[q]) \/ ev.at_lock[q].pol = AtLockTimeAlg(P, ev.at_lock[q].v)
+           \/ Report("INFO", "drift_l2_at_lock_time", ev, <<ev.at_lock[q].v, AtLockTimeAlg(P, ev.at_lock[q].v)>>)
       /\ (ev.n_keys = NKeys(P) \/ Report("C18", "n_keys", ev, <<ev.n_keys, NKeys(P)>>))
       /\ (IF SatisfiableA(P)
           THEN ev.min_keys = MinKeys(P) \/ Report("C18", "minimum_n_keys", ev, <<ev.min_keys, MinKeys(P)>>)
